@@ -4,6 +4,7 @@ import FitModel.TimeAngle
 import FitModel.Bits
 import FitModel.Accum
 import FitModel.Generated.ProfileArith
+import FitModel.ValidatorArith
 import Driver.Util
 import Driver.ValCodec
 import Driver.MsgCodec
@@ -11,6 +12,7 @@ import Driver.MsgCodec
 -- @family so Drv.Arith.hSo
 -- @family sox Drv.Arith.hSox
 -- @family sotx Drv.Arith.hSotx
+-- @family sodev Drv.Arith.hSoDev
 -- @family ta Drv.Arith.hTa
 -- @family tax Drv.Arith.hTax
 -- @family bits Drv.Arith.hBits
@@ -208,6 +210,55 @@ def soSingle (mode : Mode) (args : List String) : String :=
             else "n/a"
           | .kf => if inexactFloatRT t rs s o && pairInProfile s o then "KF-C12-1" else "-"
           | .prop => "n/a"
+    | _, _, _ => "bad-op"
+  | _ => "bad-op"
+
+/-! ### `sodev`: the validator's route for a developer field mapped to a native field (C12 through `Fit.ValidatorA`) -/
+
+def parseNative (s : String) : Option (Nat × Nat) :=
+  match s.splitOn "." with
+  | [m, f] => do
+    let m ← m.toNat?
+    let f ← f.toNat?
+    if m < 65536 ∧ f < 256 ∧ s == s!"{m}.{f}" then some (m, f) else none
+  | _ => none
+
+/-- what one developer field mapped to the native field `(mn, fn)` is restored to when it carries `ApplyValue` of the raw
+value: the native field is looked up in the regenerated standard factory on EVERY developer field
+(`Fit.Validator.restoreDev` with `Fit.ValidatorA.D` / `stdOptions`), then the validator's integrity check -/
+def devRoute (spec : Bool) (mn fn raw : Nat) : String :=
+  let e := Fit.ValidatorA.stdFactory mn fn
+  match tgtOfBaseType e.baseType with
+  | some (.int ty) =>
+    let t : Num := .int ty
+    let rv := Fit.ScaleOffset.mkScalar t (raw % 2 ^ numBits t)
+    if spec then
+      -- the property: the raw value comes back (every field the factory knows is in range: C10_std_factory_in_range)
+      if e.nameKnown then printValue rv else "n/a"
+    else
+      let fd : Fit.Validator.FieldDesc := ⟨0, 0, e.baseType, 255, 127, mn, fn⟩
+      let d := Fit.Validator.restoreDev Fit.ValidatorA.D (Fit.ValidatorA.stdOptions false) fd ⟨0, 0, applyValue rv e.scale e.offset⟩
+      match Fit.Validator.integrity d.value e.baseType with
+      | some .typeMismatch => "err:type"
+      | some .invalidUtf8 => "err:utf8"
+      | some _ => "err:exceed"
+      | none => printValue d.value
+  | _ => "bad-op"
+
+def hSoDev : Handler := fun r =>
+  match r.args with
+  | [a, b, raws] =>
+    match parseNative a, parseNative b, (raws.splitOn ",").mapM (hexW? 16) with
+    | some (ma, fa), some (mb, fb), some rs =>
+      match r.mode with
+      | .kf => "-"
+      | .prop => "n/a"
+      | m =>
+        let spec := m == .spec
+        let parts := rs.map fun raw => devRoute spec ma fa raw ++ "," ++ devRoute spec mb fb raw
+        if parts.any (fun p => (p.splitOn "bad-op").length > 1) then "bad-op"
+        else if spec && parts.any (fun p => (p.splitOn "n/a").length > 1) then "n/a"
+        else ";".intercalate parts
     | _, _, _ => "bad-op"
   | _ => "bad-op"
 
